@@ -221,6 +221,52 @@ def work_rate(chunk, st):
         st.sample(dict(detail, audit_connections=len(audit_conns), rate_connections=len(rate_conns), peak_concurrent=peak), cap=10)
 
 
+# ---- a server that answers some of the audit's connections with a notice (MaxStartups, tcp wrappers, a load balancer's text) in place
+# of its identification string and hangs up: which connections, by position (all / every other / the first k / all but the first / every
+# third).  The bounds are per phase whatever is refused: a handshake that never completes is ONE connection (two with the SSH-1 fallback),
+# and the probes stay within one per host-key type and nine per group-exchange method
+THROTTLE_PATTERNS = {'always': lambda i: True, 'even': lambda i: i % 2 == 0, 'odd': lambda i: i % 2 == 1, 'first': lambda i: i < 1, 'first-two': lambda i: i < 2,
+                     'all-but-first': lambda i: i >= 1, 'every-third': lambda i: i % 3 == 2, 'second-only': lambda i: i == 1}
+
+
+def throttle_tasks():
+    out = []
+    for pat in THROTTLE_PATTERNS:
+        for notice in range(len(P.NOTICES)):
+            for kexes in (('curve25519-sha256',), ('diffie-hellman-group14-sha256', 'diffie-hellman-group-exchange-sha256'), ('diffie-hellman-group-exchange-sha1', 'diffie-hellman-group-exchange-sha256', 'curve25519-sha256')):
+                for nkeys in (1, 3):
+                    for mode in ('standard', 'json', 'policy'):
+                        out.append((pat, notice, kexes, nkeys, mode))
+    return out
+
+
+def work_throttle(chunk, st):
+    for pat, notice, kexes, nkeys, mode in chunk:
+        keys = ['ssh-ed25519', 'rsa-sha2-512', 'ecdsa-sha2-nistp256'][:nkeys]
+        srv = P.Server(label='TH', kex=list(kexes), key=keys, host_keys=P.standard_host_keys(keys), gex=P.GexPolicy([2048, 4096], P.STRICT), banner=b'SSH-2.0-OpenSSH_8.9p1')
+        f = THROTTLE_PATTERNS[pat]
+        srv.conn_behaviour = lambda i, f=f, notice=notice: ('notice', notice) if f(i) else 'normal'
+        opts = ['-n', '--skip-rate-test'] + {'standard': [], 'json': ['-j'], 'policy': ['-P', 'Hardened OpenSSH Server v9.6 (version 1)']}[mode]
+        if mode == 'policy' and 'Hardened OpenSSH Server v9.6 (version 1)' not in runner.M['builtin_policies'].BUILTIN_POLICIES:
+            opts = opts[:2] + ['-P', sorted(k for k, v in runner.M['builtin_policies'].BUILTIN_POLICIES.items() if v['server_policy'])[0]]
+        res = H.audit(srv, opts=opts)
+        res.peer = srv
+        n = len(res.world.conns)
+        root = ('throttle', pat, notice, kexes, nkeys, mode)
+        st.execution(res.world, outcome=('throttle', pat, res.status, n), root=root, nontrivial=root)
+        d = {'connections_answered_with_a_notice': pat, 'notice': P.NOTICES[notice].decode(), 'kex': list(kexes), 'host_keys': nkeys, 'mode': mode, 'connections': n}
+        judge(res, 'A', [], False, st, d)
+        if f(0) and n > 1 and not res.hang:
+            st.violation('throttle:handshake-never-completed-but-%s-connections' % ('2-4' if n <= 4 else 'many'), dict(d, status=res.status))
+        if not f(0):
+            # per phase: connections after the first one, against the probes the offer allows
+            HK = runner.M['hostkeytest'].HostKeyTest
+            allowed = len(set(t for t in keys if t in HK.HOST_KEY_TYPES)) + 9 * len(set(k for k in kexes if k in P.GEX_NAMES))
+            if n - 1 > allowed:
+                st.violation('throttle:more-probe-connections-than-probes', dict(d, allowed=allowed))
+    st.sample({'throttled_connections': chunk[0][0], 'notice': P.NOTICES[chunk[0][1]].decode()}, cap=4)
+
+
 def check_no_dos_without_option(st):
     """The denial-of-service and rate-flood features run only when explicitly requested."""
     src = open(runner.M['ssh_audit'].__file__).read()
@@ -279,6 +325,7 @@ def run(tier, seed):
           for skip in (True, False) for f in ('text', 'json')]
     mt += [t + ('one-host-two-ports',) for t in mt]
     par.pmap(work_multi_skip, mt, stats=st, chunk=2)
+    par.pmap(work_throttle, throttle_tasks(), stats=st, chunk=12)
     from props import c09
     par.pmap(work_degenerate, c09.degenerate_gex_tasks(), stats=st, procs=1)
     from props import zoo
@@ -296,7 +343,7 @@ def run(tier, seed):
     validated = H.validate_traces(vcases, st)
     return evidence.finish(
         PID, tier, seed, st, t0,
-        rule='connection-log monitor over: (a) the C09 fault space (every archetype, %s faults, with the rate check skipped; message-level close/stall/'
+        rule='servers answering connections (all / every other / the first k / all but the first / every third) with one of %d notices instead of an identification string x 3 kex sets x {1,3} host keys x {text, JSON, policy}: one connection when the handshake never completes, probes within one per key type and nine per group-exchange method; ' % len(P.NOTICES) + 'connection-log monitor over: (a) the C09 fault space (every archetype, %s faults, with the rate check skipped; message-level close/stall/'
              'reset/refuse faults again with the rate check on for B, C, D1); (b) rate-phase behaviours %s (and every repeating pattern of 2-3 different '
              'per-connection answers over {banner, close, MaxStartups, refuse, silent}) x 3 kex sets x {1,3} host keys x {standard, '
              '-P, -M, --skip-rate-test} x select latencies; (c) ordinary option sets never produce a flood pattern; (d) two targets in one -T invocation with the rate check skipped and on; (e) degenerate group-exchange groups; (f) the cooperative peers of props/zoo.py (every host-key type, certificate, GEX policy, SSH-1). Bounds: connections <= initial + '
